@@ -21,6 +21,9 @@ var (
 
 func SetClock(ns int64) { atomic.StoreInt32(&clockOn, 1); atomic.StoreInt64(&nowNs, ns) }
 func Advance(d int64)   { atomic.AddInt64(&nowNs, d) }
+
+// NowNanos is the virtual clock reading (no scheduling point, no trace note).
+func NowNanos() int64 { return atomic.LoadInt64(&nowNs) }
 func ClockNs() int64    { return atomic.LoadInt64(&nowNs) }
 func RealClock()        { atomic.StoreInt32(&clockOn, 0) }
 
